@@ -1,31 +1,31 @@
-\* MUTANT NoDesignatedCheck: find_more_work does not look at designated work (scheduler.rs:537-540).
-\* TLC must REJECT this configuration (expected: StageOrderOK).
+\* MUTANT OpenBeforeStop: notify_mutators_paused runs before stop_all_mutators has returned (gc_work.rs:221-235).
+\* TLC must REJECT this configuration (expected: STWOnlyWhenStopped).
 SPECIFICATION Spec
 CONSTANTS
   N = 2
-  NStages = 4
+  NStages = 5
   Mutators = {1}
   MaxReq = 2
   MaxFork = 0
   ExitKinds = {}
   SpurBudget = 1
-  SpawnBudget = 1
+  SpawnBudget = 2
   MaxDepth = 1
   LocalCap = 1
   BatchMax = 0
-  SchedAdds = {3}
+  SchedAdds = {3, 5}
   SentinelStage = 4
   RootAdds = 1
   UseDesig = TRUE
-  SpawnStages = {4}
-  GenHows = {"work"}
-  MutAddStages = {}
-  MutAddBudget = 0
+  SpawnStages = {4, 5}
+  GenHows = {"work", "add"}
+  MutAddStages = {4}
+  MutAddBudget = 1
   InitDisabled = {}
   SchedToggle = {}
   AtomicScan = TRUE
   FreePrograms = FALSE
-  Mutant = "NoDesignatedCheck"
+  Mutant = "OpenBeforeStop"
 INVARIANTS
   TypeOK NoPanic ParkedCountOK CondvarOK NoStuck LastParkedUnique FlagProtocol
   StageOrderOK OpenPrefix AllClosedAtGCEnd PacketConservation PacketExactlyOnce RunOnlyOpen
